@@ -29,4 +29,7 @@ Section PerChannel.
   Definition reset_multi (s : list St) : list St := map reset1 s.
 End PerChannel.
 
+(** operations of a scanner history (feeds, polls, resets, clock ticks) *)
+Inductive sop : Type := OFeed (b : bytes) | OPoll (channel : N) | OReset | OTick (dt : N).
+
 Definition replicate {A} (n : nat) (x : A) : list A := repeat x n.
